@@ -490,27 +490,33 @@ class C06Monitor(explore.Monitor):
     role = {r: rng.choice("UUUDDDELLL") for r in rows}
     if not any(v in "DL" for v in role.values()):
       role[rng.choice(rows)] = rng.choice("DL")
-    def value(c):
+    def value(c, r):
       pool = gen.values_for(c[1], rng, e, g.rows_of(e))
       if rng.random() < 0.8:      # mostly well-typed values: error cells hide differences
         pool = [v for v in pool if v is not None and not isinstance(v, (str, bool))
                 or c[1] not in ("Int", "Numeric")] or pool
+      if rng.random() < 0.9:      # mostly a CHANGE of the cell: writing the value a cell already
+        try:                      # holds is dropped from the action and dirties nothing
+          cur = e.tables[t].get_column(c[0]).raw_get(r)
+          pool = [v for v in pool if type(v) is not type(cur) or v != cur] or pool
+        except Exception:
+          pass
       return rng.choice(pool)
     def action(rs, cols):
       cols = list(cols)
       if data and rng.random() < 0.2: cols.append(rng.choice(data))
       if not rs or not cols: return []
       if len(rs) == 1:
-        return [["UpdateRecord", t, rs[0], {c[0]: value(c) for c in cols}]]
+        return [["UpdateRecord", t, rs[0], {c[0]: value(c, rs[0]) for c in cols}]]
       if rng.random() < 0.3:        # one UpdateRecord per row instead of a bulk action
-        return [["UpdateRecord", t, r, {c[0]: value(c) for c in cols}] for r in rs]
-      return [["BulkUpdateRecord", t, rs, {c[0]: [value(c) for _ in rs] for c in cols}]]
+        return [["UpdateRecord", t, r, {c[0]: value(c, r) for c in cols}] for r in rs]
+      return [["BulkUpdateRecord", t, rs, {c[0]: [value(c, r) for r in rs] for c in cols}]]
     others = [c for c in trig if c is not focus and rng.random() < 0.25]
     dep = lambda: [rng.choice(fdeps)] if fdeps else []
     early = [action([r for r in rows if role[r] == "D"], dep()),
              action([r for r in rows if role[r] == "E"], [focus] + others + dep())]
     rng.shuffle(early)
-    last_kind = rng.choice(["set+dep"] * 6 + ["set"] * 2 + ["dep"] * 2)
+    last_kind = rng.choice(["set+dep"] * 7 + ["set"] * 2 + ["dep"] * 1)
     last_cols = {"set+dep": [focus] + others + dep(), "set": [focus] + others, "dep": dep()}[last_kind]
     last = action([r for r in rows if role[r] == "L"], last_cols)
     return (early[0] + early[1] + last) or None
@@ -550,7 +556,7 @@ class C06Monitor(explore.Monitor):
     r = g.rng.random()
     has_trigger = bool(self.trigger_tables(e, g)[1])
     if st.get("focus") and has_trigger and r < 0.9:
-      b = self.trigger_update(e, g) if r < 0.75 else self.multi_row_reader(e, g)
+      b = self.trigger_update(e, g) if r < 0.8 else self.multi_row_reader(e, g)
       if b: return b
     # documents with trigger-formula columns get the trigger shapes much more often
     if r > (0.5 if has_trigger else 0.8):
@@ -732,7 +738,7 @@ def main():
     "four with trigger-formula columns (recalcDeps), two of these with formulas that read several "
     "rows of a trigger column at once (record-set attributes, summary-table groups); three trigger "
     "documents are explored twice, the second "
-    "time (seed name *_focus) with 75% role-based multi-action trigger updates and 15% added "
+    "time (seed name *_focus) with 80% role-based multi-action trigger updates and 10% added "
     "multi-row readers; not a proof",
     "the ghost parameter pi permutes the list returned by the real Engine._make_sorted_work_items "
     "(wrapped at class level) keeping '#lookup' items at the end of the list (popped first), which "
@@ -756,7 +762,7 @@ def main():
   os.environ["C06_STATS_DIR"] = stats_dir
   try:
     explore.explore(rep, "checks.C06", "C06Monitor", n_quick=112, n_thorough=2800,
-                    budget_quick_s=25, budget_thorough_s=800)
+                    budget_quick_s=30, budget_thorough_s=800)
     tot = Counter()
     for p in glob.glob(os.path.join(stats_dir, "*.json")):
       try:
